@@ -256,7 +256,8 @@ class Analysis:
     """interprets one function (helpers that touch `next` are inlined) over sets of abstract heaps"""
     max_states = 400
 
-    def __init__(self, fb, inputs, is_helper=None, next_field='yaclib::detail::Node::next', ordered_finishers=()):
+    def __init__(self, fb, inputs, is_helper=None, next_field='yaclib::detail::Node::next', ordered_finishers=(),
+                 finishers=None, on_store=None):
         """inputs(fn, node) -> 'list' (non-empty input list), 'maybe-list', 'single', 'maybe-single' (one node whose
         next is null) or None: which expressions introduce the list under analysis (e.g. the exchange that detaches
         it)"""
@@ -265,6 +266,9 @@ class Analysis:
         self.is_helper = is_helper or (lambda fn, g: False)
         self.next_field = next_field
         self.ordered_finishers = tuple(ordered_finishers)  # finishers that must run oldest entry first
+        #                                                     ('escape' = a node handed to another function)
+        self.finishers = tuple(finishers) if finishers else FINISHERS
+        self.on_store = on_store  # callback(fn, node, heap, value) when a tracked chain is stored into a member
         self.problems = {}
         self.nstates = 0
 
@@ -441,13 +445,15 @@ class Analysis:
                 for h2, val in self.eval(fn, n['ch'][1], h, depth):
                     if val:
                         h3 = h2.copy()
+                        if self.on_store is not None:
+                            self.on_store(self, fn, n, h3, val)
                         h3.escaped = h3.escaped | {val}
                         out.append(h3)
                     else:
                         out.append(h2)
                 return out
             return [h]
-        if k == 'CXXMemberCallExpr' and n.get('cn', '').split('::')[-1] in FINISHERS and n.get('obj') is not None:
+        if k == 'CXXMemberCallExpr' and n.get('cn', '').split('::')[-1] in self.finishers and n.get('obj') is not None:
             out = []
             for h1, b in self.eval(fn, n['obj'], h, depth):
                 if b is None:
@@ -500,6 +506,15 @@ class Analysis:
                         if b:
                             for h2 in h1.materialise(b):
                                 if not h2.nodes[b][2]:
+                                    if 'escape' in self.ordered_finishers:
+                                        definitely, possibly = h2.older_unfinished(b)
+                                        if definitely:
+                                            self.problem('order', fn, n, 'an entry is handed on (granted / submitted) '
+                                                         'while an OLDER entry of the same detached list is still '
+                                                         'pending: the entries are not served in arrival order')
+                                        elif possibly:
+                                            raise Unsupported('the order in which the entries are handed on cannot be '
+                                                              'established at %s' % fn.loc(n))
                                     h2.nodes[b][2] = True  # handed over: the callee resumes / runs it
                                 nxt.append(h2)
                         else:
